@@ -367,6 +367,24 @@ Definition spec_tx_cost (flag_p2sh flag_witness : bool) (t : stx) : Z :=
 
 (* sizes: the theorems are for scripts as they occur in blocks (a block is at most 4,000,000 bytes) *)
 Definition script_bytes_ok (s : script) : Prop := Forall (fun b => 0 <= b <= 255) s.
+(* the serialized form of an operation (any of the push forms may be used for any length that fits it) and the
+   operations that have one: used to state that parse inverts it *)
+Definition encode_op (o : op) : script :=
+  let c := op_code o in
+  let n := zlen (op_data o) in
+  c :: (if c <? 76 then []
+        else if c =? 76 then [n]
+        else if c =? 77 then [n mod 256; n / 256]
+        else if c =? 78 then [n mod 256; (n / 256) mod 256; (n / 65536) mod 256; n / 16777216]
+        else []) ++ op_data o.
+Definition wf_op (o : op) : Prop :=
+  let c := op_code o in
+  let n := zlen (op_data o) in
+  0 <= c <= 255 /\
+  (c < 76 -> n = c) /\ (c = 76 -> n <= 255) /\ (c = 77 -> n <= 65535) /\ (c = 78 -> n <= 4294967295) /\
+  (78 < c -> op_data o = []).
+Definition encode_ops (ops : list op) : script := concat (map encode_op ops).
+
 Definition tx_script_bytes (t : stx) : Z :=
   zsum (map (fun i => zlen (si_script_sig i) + zlen (si_prev_spk i) + zsum (map zlen (si_witness i))) (st_ins t)) +
   zsum (map zlen (st_outs t)).
